@@ -1,8 +1,11 @@
 """Translator for C15: regenerates coq/gen/GenC15.v from the working tree of /repo.
 
 Reads
-  * src/pptx/parts/image.py   the dict literal bound to ext_map inside Image.ext (by AST:
-                              the extension is computed as ext_map[format] and nothing else);
+  * src/pptx/parts/image.py   Image.ext by AST: the dict literal, the header rules that precede the
+                              lookup (format == X and blob[lo:hi] == bytes -> ext), the membership
+                              test and the lookup -- any other statement is unmodelled;
+                              Image._pil_props by AST: the straight-line code and the rules that drop
+                              the dpi entry (format == X and tag N not in tag_v2);
   * pptx.opc.spec             image_content_types, default_content_types (by import);
   * pptx                      content_type_to_part_class_map rows whose class is ImagePart
                               (read from PartFactory.part_type_for, the table actually used).
@@ -26,40 +29,136 @@ def pairs(name, rows):
     return "Definition %s : list (str * str) :=\n  [ %s ].\n" % (name, body)
 
 
+def _is_name(n, name):
+    return isinstance(n, ast.Name) and n.id == name
+
+
+def _const(n, typ):
+    return isinstance(n, ast.Constant) and isinstance(n.value, typ)
+
+
+def _special_rule(node, fmtvar):
+    """if <fmtvar> == "X" and (self._blob or b"")[lo:hi] == b"...": return "ext"  ->  (X, lo, bytes, ext)"""
+    if not (isinstance(node, ast.If) and not node.orelse and len(node.body) == 1):
+        return None
+    ret = node.body[0]
+    if not (isinstance(ret, ast.Return) and _const(ret.value, str)):
+        return None
+    t = node.test
+    if not (isinstance(t, ast.BoolOp) and isinstance(t.op, ast.And) and len(t.values) == 2):
+        return None
+    c1, c2 = t.values
+    if not (isinstance(c1, ast.Compare) and len(c1.ops) == 1 and isinstance(c1.ops[0], ast.Eq)
+            and _is_name(c1.left, fmtvar) and _const(c1.comparators[0], str)):
+        return None
+    if not (isinstance(c2, ast.Compare) and len(c2.ops) == 1 and isinstance(c2.ops[0], ast.Eq)
+            and _const(c2.comparators[0], bytes) and isinstance(c2.left, ast.Subscript)):
+        return None
+    sub = c2.left
+    src = sub.value
+    ok_src = (isinstance(src, ast.BoolOp) and isinstance(src.op, ast.Or) and len(src.values) == 2
+              and isinstance(src.values[0], ast.Attribute) and _is_name(src.values[0].value, "self")
+              and src.values[0].attr == "_blob" and _const(src.values[1], bytes) and src.values[1].value == b"")
+    sl = sub.slice
+    if not (ok_src and isinstance(sl, ast.Slice) and sl.step is None and _const(sl.lower, int) and _const(sl.upper, int)):
+        return None
+    lo, hi, magic = sl.lower.value, sl.upper.value, c2.comparators[0].value
+    if lo < 0 or hi - lo != len(magic):
+        return None
+    return (c1.comparators[0].value, lo, magic, ret.value.value)
+
+
 def ext_map_from_ast(unmodelled):
+    """Image.ext must be: [docstring]; <map> = {literal}; <fmt> = self._format; zero or more header
+    rules; if <fmt> not in <map>: ...raise ValueError...; return <map>[<fmt>].  Anything else is unmodelled."""
     path = os.path.join(REPO, "src", "pptx", "parts", "image.py")
     tree = ast.parse(open(path, encoding="utf-8").read())
-    found = []
-    for cls in [n for n in tree.body if isinstance(n, ast.ClassDef) and n.name == "Image"]:
-        for fn in [n for n in cls.body if isinstance(n, ast.FunctionDef) and n.name == "ext"]:
-            dicts = [n for n in ast.walk(fn) if isinstance(n, ast.Assign) and isinstance(n.value, ast.Dict)]
-            if len(dicts) != 1 or not (len(dicts[0].targets) == 1 and isinstance(dicts[0].targets[0], ast.Name)):
-                unmodelled.append("Image.ext: expected exactly one dict literal assignment")
-                continue
-            var = dicts[0].targets[0].id
-            d = dicts[0].value
-            for k, v in zip(d.keys, d.values):
-                if isinstance(k, ast.Constant) and isinstance(v, ast.Constant) and isinstance(k.value, str) and isinstance(v.value, str):
+    found, specials = [], []
+    fns = [fn for cls in tree.body if isinstance(cls, ast.ClassDef) and cls.name == "Image"
+           for fn in cls.body if isinstance(fn, ast.FunctionDef) and fn.name == "ext"]
+    if len(fns) != 1:
+        unmodelled.append("Image.ext: not found exactly once")
+        return found, specials
+    body = list(fns[0].body)
+    if body and isinstance(body[0], ast.Expr) and _const(body[0].value, str):
+        body = body[1:]
+    var = fmtvar = None
+    stage = 0
+    for st in body:
+        if stage == 0 and isinstance(st, ast.Assign) and isinstance(st.value, ast.Dict) and len(st.targets) == 1 \
+                and isinstance(st.targets[0], ast.Name):
+            var = st.targets[0].id
+            for k, v in zip(st.value.keys, st.value.values):
+                if _const(k, str) and _const(v, str):
                     found.append((k.value, v.value))
                 else:
                     unmodelled.append("Image.ext: non-literal entry in the format map")
-            # the shape of the function: membership test on the map, raise ValueError, return map[format]
-            rets = [n for n in ast.walk(fn) if isinstance(n, ast.Return)]
-            ok_ret = (len(rets) == 1 and isinstance(rets[0].value, ast.Subscript)
-                      and isinstance(rets[0].value.value, ast.Name) and rets[0].value.value.id == var)
-            if not ok_ret:
-                unmodelled.append("Image.ext: return is not a lookup in the format map")
-            raises = [n for n in ast.walk(fn) if isinstance(n, ast.Raise)]
-            if not (len(raises) == 1 and isinstance(raises[0].exc, ast.Call) and getattr(raises[0].exc.func, "id", "") == "ValueError"):
-                unmodelled.append("Image.ext: expected exactly one raise ValueError")
+            stage = 1
+        elif stage == 1 and isinstance(st, ast.Assign) and len(st.targets) == 1 and isinstance(st.targets[0], ast.Name) \
+                and isinstance(st.value, ast.Attribute) and _is_name(st.value.value, "self") and st.value.attr == "_format":
+            fmtvar = st.targets[0].id
+            stage = 2
+        elif stage == 2 and _special_rule(st, fmtvar):
+            specials.append(_special_rule(st, fmtvar))
+        elif stage == 2 and isinstance(st, ast.If) and not st.orelse and isinstance(st.test, ast.Compare) \
+                and len(st.test.ops) == 1 and isinstance(st.test.ops[0], ast.NotIn) and _is_name(st.test.left, fmtvar) \
+                and _is_name(st.test.comparators[0], var) and isinstance(st.body[-1], ast.Raise) \
+                and isinstance(st.body[-1].exc, ast.Call) and getattr(st.body[-1].exc.func, "id", "") == "ValueError" \
+                and all(isinstance(x, (ast.Assign, ast.Raise)) for x in st.body):
+            stage = 3
+        elif stage == 3 and isinstance(st, ast.Return) and isinstance(st.value, ast.Subscript) \
+                and _is_name(st.value.value, var) and _is_name(st.value.slice, fmtvar):
+            stage = 4
+        else:
+            unmodelled.append("Image.ext: statement at line %d not understood" % st.lineno)
+    if stage != 4:
+        unmodelled.append("Image.ext: expected map, format, header rules, membership test, lookup (stopped at stage %d)" % stage)
     if not found:
         unmodelled.append("Image.ext: format map not found")
-    return found
+    return found, specials
+
+
+def dpi_drop_from_ast(unmodelled):
+    """Image._pil_props must be the known straight-line code plus zero or more rules
+    if format == "X" and N not in getattr(pil_image, "tag_v2", {}): dpi = None  ->  (X, N)"""
+    path = os.path.join(REPO, "src", "pptx", "parts", "image.py")
+    tree = ast.parse(open(path, encoding="utf-8").read())
+    fns = [fn for cls in tree.body if isinstance(cls, ast.ClassDef) and cls.name == "Image"
+           for fn in cls.body if isinstance(fn, ast.FunctionDef) and fn.name == "_pil_props"]
+    rules = []
+    if len(fns) != 1:
+        unmodelled.append("Image._pil_props: not found exactly once")
+        return rules
+    body = list(fns[0].body)
+    if body and isinstance(body[0], ast.Expr) and _const(body[0].value, str):
+        body = body[1:]
+    expect = ["stream = io.BytesIO(self._blob)", "pil_image = PIL_Image.open(stream)", "format = pil_image.format",
+              "width_px, height_px = pil_image.size", "dpi = cast('tuple[int, int] | None', pil_image.info.get('dpi'))"]
+    tail = ["stream.close()", "return (format, (width_px, height_px), dpi)"]
+    texts = [ast.unparse(st) for st in body]
+    if texts[:len(expect)] != expect or texts[-len(tail):] != tail:
+        unmodelled.append("Image._pil_props: straight-line part differs from the modelled one")
+        return rules
+    for st in body[len(expect):len(body) - len(tail)]:
+        ok = False
+        if isinstance(st, ast.If) and not st.orelse and len(st.body) == 1 and ast.unparse(st.body[0]) == "dpi = None" \
+                and isinstance(st.test, ast.BoolOp) and isinstance(st.test.op, ast.And) and len(st.test.values) == 2:
+            c1, c2 = st.test.values
+            if isinstance(c1, ast.Compare) and len(c1.ops) == 1 and isinstance(c1.ops[0], ast.Eq) and _is_name(c1.left, "format") \
+                    and _const(c1.comparators[0], str) and isinstance(c2, ast.Compare) and len(c2.ops) == 1 \
+                    and isinstance(c2.ops[0], ast.NotIn) and _const(c2.left, int) \
+                    and ast.unparse(c2.comparators[0]) == "getattr(pil_image, 'tag_v2', {})":
+                rules.append((c1.comparators[0].value, c2.left.value))
+                ok = True
+        if not ok:
+            unmodelled.append("Image._pil_props: statement at line %d not understood" % st.lineno)
+    return rules
 
 
 def main():
     unmodelled = []
-    em = ext_map_from_ast(unmodelled)
+    em, specials = ext_map_from_ast(unmodelled)
+    drops = dpi_drop_from_ast(unmodelled)
     import pptx  # noqa: F401  (registers the part classes)
     from pptx.opc.package import PartFactory
     from pptx.opc.spec import default_content_types, image_content_types
@@ -81,6 +180,11 @@ def main():
            pairs("gen_ext_map", em),
            pairs("gen_image_content_types", ict),
            pairs("gen_default_content_types", [r for r in dct if isinstance(r, tuple) and len(r) == 2]),
+           "Definition gen_ext_special : list (str * nat * list N * str) :=\n  [ %s ].\n" % ";\n    ".join(
+               "(%s, %d%%nat, %s, %s)" % (lit(f), lo, "[" + "; ".join(str(x) for x in magic) + "]%N", lit(e))
+               for f, lo, magic, e in specials) if specials else "Definition gen_ext_special : list (str * nat * list N * str) := [].\n",
+           "Definition gen_dpi_drop : list (str * N) :=\n  [ %s ].\n" % ";\n    ".join("(%s, %d%%N)" % (lit(f), t) for f, t in drops)
+           if drops else "Definition gen_dpi_drop : list (str * N) := [].\n",
            "Definition gen_imagepart_cts : list str :=\n  [ %s ].\n" % ";\n    ".join(lit(c) for c in ipc),
            "Definition n_unmodelled : nat := %d%%nat." % len(unmodelled)]
     for u in unmodelled:
@@ -91,8 +195,8 @@ def main():
     if old != text:
         with open(path, "w", encoding="utf-8") as f:
             f.write(text)
-    print("tx_c15: %d formats, %d image content types, %d defaults, %d ImagePart content types, %d unmodelled" % (
-        len(em), len(ict), len(dct), len(ipc), len(unmodelled)))
+    print("tx_c15: %d formats, %d header rules, %d dpi-drop rules, %d image content types, %d defaults, %d ImagePart content types, %d unmodelled" % (
+        len(em), len(specials), len(drops), len(ict), len(dct), len(ipc), len(unmodelled)))
     for u in unmodelled:
         print("  unmodelled:", u)
 
